@@ -135,8 +135,14 @@ def translate(src, fn, nparams, members=()):
             tr = Tr()
             term = tr.stmts(body, 1)
             ps = ' '.join(f'({m} : Int)' for m in members) + ' ' + ' '.join(f'({p["name"]} : Int)' for p in params)
-            return f'def gen_{fn} {ps.strip()} :=\n  {term}\n'
+            return f'def gen_{fn}_translated : Bool := true\ndef gen_{fn} {ps.strip()} :=\n  {term}\n'
     raise RuntimeError('no definition for ' + fn)
+
+def dummy(fn, nparams, members, shape):
+    """the function left the fragment: same signature, `_translated = false`, bridging lemmas become vacuous (tied by L3 only)"""
+    ps = ' '.join(f'(_a{i} : Int)' for i in range(nparams + len(members)))
+    val = '((0 : Int), (0 : Int))' if shape == 'pair' else '(0 : Int)'
+    return f'def gen_{fn}_translated : Bool := false\ndef gen_{fn} {ps} :=\n  {val}\n'
 
 PRELUDE = '''-- GENERATED by extract/c2lean.py from the clang-14 typed AST of /repo's current sources; do not edit
 import Op2Model.Gen.Layout
@@ -154,7 +160,7 @@ FUNCTIONS = [
     ('Bitmap/ImageHeader.cpp', 'CalculatePitch', 2, []),
     ('BitTwiddle.cpp', 'IsPowerOf2', 1, []),
     ('BitTwiddle.cpp', 'Log2OfPowerOf2', 1, []),
-    ('Archive/HuffLZ.cpp', 'GetOffsetModifiers', 1, []),
+    ('Archive/HuffLZ.cpp', 'GetOffsetModifiers', 1, [], 'pair'),
     ('Map/MapHeader.h', 'WidthInTiles', 0, ['self_lgWidthInTiles']),
     ('Map/MapHeader.h', 'TileCount', 0, ['self_heightInTiles', 'self_lgWidthInTiles']),
     ('Sprite/TilesetLoader.cpp', 'CalculatePixelHeaderLength', 1, []),
@@ -166,12 +172,18 @@ def generate(repo):
     global REPO
     REPO = repo
     out = [PRELUDE]; fallback = []
-    for src, fn, n, members in FUNCTIONS:
+    failed = set()
+    for src, fn, n, members, *shape in FUNCTIONS:
         try:
-            out.append(translate(repo + '/src/' + src, fn, n, members))
+            txt = translate(repo + '/src/' + src, fn, n, members)
+            # a function that calls one that fell back falls back too (its body would mention the dummy)
+            callee_failed = [g for g in failed if f'(gen_{g} ' in txt]
+            if callee_failed: raise NotImplementedError('calls ' + callee_failed[0] + ' which was not translated')
+            out.append(txt)
         except Exception as e:  # node kind outside the fragment, or the function is gone
+            failed.add(fn)
             fallback.append(f'{fn}: {e}')
-            out.append(f'-- {fn}: not translated ({e})\n')
+            out.append(f'-- {fn}: not translated ({e})\n' + dummy(fn, n, members, shape[0] if shape else 'int'))
     out.append('end Op2.Gen.Formulas\n')
     return '\n'.join(out), fallback
 
